@@ -126,6 +126,10 @@ def run(chk, prop, theorem_files, knob_sets, n_quick, n_thorough, oracle_keys, n
     for w, k in knob_sets:
         for _ in range(int(n * w / total_w)):
             asts.append(gen.gen_project(chk.rng, k)); tags.append("gen")
+    from .common import replay_asts
+    if replay_asts(chk) is not None:
+        asts = replay_asts(chk)
+        tags = ["replay"] * len(asts)
     results = project_stream.run_projects(chk, asts, want_oracles=oracle_keys, again=again)
     feat = collections.Counter()
     dis = []
@@ -192,7 +196,7 @@ def run(chk, prop, theorem_files, knob_sets, n_quick, n_thorough, oracle_keys, n
             chk.known_finding(f["id"], f["line"] if "line" in f else f["what_fails"])
     if post:
         found += post(chk, results) or []
-    if (dis or chk.broken) and not found:
+    if (dis or chk.broken) and not found and chk.replay_payload is None:
         # failing-input search: a fresh, contention-heavy stream in the envelopes of the property, oracle only
         from ..gen import Knobs
         extra = []
